@@ -12,7 +12,7 @@ let flags_of n = { f_first = n land 1 <> 0; f_unbind = n land 2 <> 0; f_destroy 
 let ints s = List.map int_of_string (String.split_on_char ':' s)
 let tl s k = String.sub s k (String.length s - k)
 let action_of a =
-  if a = "-" then Some ANop else
+  if a = "-" || a = "wr" || a = "zw" then Some ANop else   (* wr, zw: epilogues of the harness without observable events *)
   match a.[0] with
   | 't' -> (match ints (tl a 1) with [d; fl; cb] -> Some (ATimer (zi d, flags_of fl, zi cb)) | _ -> failwith "t")
   | 'l' -> (match ints (tl a 1) with [fl; cb] -> Some (ALater (flags_of fl, zi cb)) | _ -> failwith "l")
